@@ -7,6 +7,7 @@ import (
 	"fmt"
 	"os"
 	"path/filepath"
+	"regexp"
 	"sort"
 	"strconv"
 	"strings"
@@ -33,12 +34,20 @@ func runStreamJob(job *Job, res *Result) {
 	maxT, _ := strconv.Atoi(job.Args["max"])
 	rerun := job.Args["rerun"] == "1"
 	mixed := job.Args["mixed"] == "1" // the producer also has an ordinary (non-streaming) output
+	stale := job.Args["stale"] == "1" // a regular file already sits at the streaming output's path (history: the port used to be {o:..})
+	spy := job.Args["spy"] == "1"     // a pass-through process between producer and consumer notes the order of the streamed IPs
 	res.Scenario = fmt.Sprintf("stream/n=%d/payload=%d/max=%d", n, size, maxT)
 	if mixed {
 		res.Scenario += "/mixed-outputs"
 	}
 	if rerun {
 		res.Scenario += "/rerun"
+	}
+	if stale {
+		res.Scenario += "/stale-file-at-stream-path"
+	}
+	if spy {
+		res.Scenario += "/spy"
 	}
 	dir := filepath.Join(job.Base, "e")
 	vs.EventsDependent = false
@@ -59,6 +68,9 @@ func runStreamJob(job *Job, res *Result) {
 		os.MkdirAll(vs.TmpRoot, 0777)
 		for i := 0; i < n; i++ {
 			os.WriteFile(fmt.Sprintf("in%d.txt", i), []byte(payload(i)), 0644)
+			if stale {
+				os.WriteFile(fmt.Sprintf("in%d.txt.stream", i), []byte("STALE"), 0644)
+			}
 		}
 		before = statAll(".")
 		errLog.Reset()
@@ -79,7 +91,13 @@ func runStreamJob(job *Job, res *Result) {
 		cons := wf.NewProc("cons", "cat {i:in} > {o:out}")
 		cons.SetOut("out", "{i:in}.copy")
 		prod.In("in").From(src.Out())
-		cons.In("in").From(prod.Out("out"))
+		if spy {
+			sp1 := newSpy(wf, "spy")
+			sp1.InPort("in").From(prod.Out("out"))
+			cons.In("in").From(sp1.OutPort("out"))
+		} else {
+			cons.In("in").From(prod.Out("out"))
+		}
 		wf.Run()
 		vs.Note("COMPLETED")
 	}
@@ -105,7 +123,10 @@ func runStreamJob(job *Job, res *Result) {
 				return
 			}
 			seen[sig] = true
-			v := Violation{Prop: "C17", Class: class, Detail: detail, Signature: sig, Job: job.ID}
+			if job.Args["only_order"] == "1" && class != "stream-order" {
+				return // this job judges the emission order only (C08); everything else is C17's business
+			}
+			v := Violation{Prop: job.Prop, Class: class, Detail: detail, Signature: sig, Job: job.ID}
 			if job.ReplayDir != "" {
 				os.MkdirAll(job.ReplayDir, 0777)
 				j := *job
@@ -145,7 +166,7 @@ func runStreamJob(job *Job, res *Result) {
 			return len(res.Violations) < 5
 		}
 		if oc != "" {
-			add("unexpected-outcome", oc+" "+firstLine(errLog.String()), "")
+			add("unexpected-outcome", oc+" "+logStamp.ReplaceAllString(firstLine(errLog.String()), ""), "")
 			return len(res.Violations) < 5
 		}
 		for i := 0; i < n; i++ {
@@ -157,7 +178,11 @@ func runStreamJob(job *Job, res *Result) {
 			} else if got != payload(i) {
 				add("wrong-bytes", fmt.Sprintf("consumer output %s holds %d bytes, the producer wrote %d (first difference at %d)", cp, len(got), size, firstDiff(got, payload(i))), "")
 			}
-			if c, ok := tree[in+".stream"]; ok {
+			if c, ok := tree[in+".stream"]; ok && stale {
+				if c != "STALE" {
+					add("stale-file-modified", fmt.Sprintf("the file that was at the streaming path %s.stream before the run now holds %d bytes", in, len(c)), "")
+				}
+			} else if ok {
 				add("regular-file-at-stream-path", fmt.Sprintf("a %s exists at the streaming output path %s.stream", kindOf(c), in), "")
 			}
 			if a, ok := tree[cp+".audit.json"]; ok {
@@ -177,6 +202,21 @@ func runStreamJob(job *Job, res *Result) {
 					_ = st
 					add("rerun-modified", fmt.Sprintf("the consumer's output %s was modified by the second run (inode / mtime_ns / size changed)", cp), "")
 				}
+			}
+		}
+		if spy {
+			got := []string{}
+			for _, nt := range s.NoteList() {
+				if strings.HasPrefix(nt, "spy:") {
+					got = append(got, strings.TrimPrefix(nt, "spy:"))
+				}
+			}
+			want := []string{}
+			for i := 0; i < n; i++ {
+				want = append(want, fmt.Sprintf("in%d.txt.stream", i))
+			}
+			if strings.Join(got, ",") != strings.Join(want, ",") {
+				add("stream-order", fmt.Sprintf("streamed items left the producer's out-port in the order %v, their inputs arrived in the order %v", got, want), "")
 			}
 		}
 		for p, c := range tree {
@@ -206,6 +246,8 @@ func runStreamJob(job *Job, res *Result) {
 	res.NOutcomes = len(outcomes)
 }
 
+var logStamp = regexp.MustCompile(`\d{4}/\d\d/\d\d \d\d:\d\d:\d\d `)
+
 func firstDiff(a, b string) int {
 	for i := 0; i < len(a) && i < len(b); i++ {
 		if a[i] != b[i] {
@@ -226,4 +268,25 @@ func kindOf(c string) string {
 		return "directory"
 	}
 	return "regular file"
+}
+
+// spyProc forwards IPs unchanged and notes the order in which it received them.
+type spyProc struct {
+	sp.BaseProcess
+}
+
+func newSpy(wf *sp.Workflow, name string) *spyProc {
+	p := &spyProc{BaseProcess: sp.NewBaseProcess(wf, name)}
+	p.InitInPort(p, "in")
+	p.InitOutPort(p, "out")
+	wf.AddProc(p)
+	return p
+}
+
+func (p *spyProc) Run() {
+	defer p.CloseAllOutPorts()
+	for ip := range p.InPort("in").Chan {
+		vs.Note("spy:" + normPath(ip.Path()))
+		p.OutPort("out").Send(ip)
+	}
 }
